@@ -27,8 +27,8 @@ pub struct WatchdogExpired;
 thread_local! {
     static SEED: Cell<Option<u64>> = const { Cell::new(None) };
     static DRAWS: RefCell<Vec<DrawEvent>> = const { RefCell::new(Vec::new()) };
-    static MAP_ORDER: Cell<[usize; 3]> = const { Cell::new([0; 3]) };
-    static RAW_ORDER: RefCell<[Vec<usize>; 3]> = const { RefCell::new([Vec::new(), Vec::new(), Vec::new()]) };
+    static MAP_ORDER: Cell<[usize; 4]> = const { Cell::new([0; 4]) };
+    static RAW_ORDER: RefCell<[Vec<usize>; 4]> = const { RefCell::new([Vec::new(), Vec::new(), Vec::new(), Vec::new()]) };
     static TOKENS: Cell<u64> = const { Cell::new(0) };
     static EOF_PULLED: Cell<bool> = const { Cell::new(false) };
     static BUDGET: Cell<u64> = const { Cell::new(u64::MAX) };
@@ -88,7 +88,8 @@ impl LoggedCtx<'_> {
 // ---- H3: hash map drain order --------------------------------------------------
 
 /// Choose the order in which the parser sees the contents of its hash map number `which`
-/// (0: clock columns, 1: read outputs, 2: virtual signals). `index` selects one of the k!
+/// (0: clock columns, 1: read outputs, 2: virtual signals, 3: the .dig loader's set of
+/// bidirectional names). `index` selects one of the k!
 /// permutations of the k drained items (taken modulo k!); 0 is the identity.
 pub fn set_map_order(which: usize, index: usize) {
     MAP_ORDER.with(|m| {
@@ -122,6 +123,18 @@ pub(crate) fn permute_drained<T>(which: usize, items: &mut Vec<T>, key: impl Fn(
         items.push(rest.remove(index % n));
         index /= n;
     }
+}
+
+/// The contents of a hash set in the order the harness chose (see [set_map_order])
+pub(crate) fn permuted_set(which: usize, set: std::collections::HashSet<String>) -> Vec<String> {
+    let mut sorted: Vec<String> = set.iter().cloned().collect();
+    sorted.sort();
+    let mut items: Vec<(usize, String)> = set
+        .into_iter()
+        .map(|s| (sorted.iter().position(|t| *t == s).unwrap_or(0), s))
+        .collect();
+    permute_drained(which, &mut items, |(rank, _)| *rank);
+    items.into_iter().map(|(_, s)| s).collect()
 }
 
 // ---- H4: token meter -----------------------------------------------------------
